@@ -405,7 +405,7 @@ def run_case(case):
             else:
                 tr += 1
                 with np.errstate(invalid="ignore"):
-                    if not np.all((np.abs(lp - base) <= 1e-9 * (1 + np.abs(base))) | (lp == base)):
+                    if not np.all((np.isfinite(base) & (np.abs(lp - base) <= 1e-9 * (1 + np.abs(base)))) | (lp == base)):
                         add("mixture|rescale", f"{case['id']}: log_prob changed when the weights were rescaled by {mult}")
             tr += 1
             from flowjax.wrappers import unwrap
